@@ -547,6 +547,9 @@ HELPER_NAMES = {'assist', 'helped'}
 MID_NAMES = {'mid_attr', 'mid', 'mid_state'}
 # (file of the edited text, import line, base expression, names the instance must offer besides its own)
 PKG_FORMS = [
+    # a subclass that reuses the name of its base (the base expression is read before the class statement rebinds the name)
+    ('pkg/leaf.py', 'from .base import _Base as Leaf, Helper', 'Leaf, Helper', BASE_NAMES | HELPER_NAMES),
+    ('pkg/sub/leaf.py', 'from ..base import Helper as Leaf', 'Leaf', HELPER_NAMES),
     ('pkg/sub/leaf.py', 'from .. import base', 'base._Base', BASE_NAMES),
     ('pkg/sub/leaf.py', 'from ..base import _Base', '_Base', BASE_NAMES),
     ('pkg/sub/leaf.py', 'from ..base import _Base as B, Helper', 'B, Helper', BASE_NAMES | HELPER_NAMES),
@@ -582,7 +585,7 @@ finally:
 
 
 @harness(['C06'], 'supp.assistant.assist on obj.attr [bases in other modules of a package tree: relative imports of every level, private names]',
-         bounded='a package with a subpackage and a sub-subpackage; bases named with a leading underscore; 13 import forms (from .. import module, '
+         bounded='a package with a subpackage and a sub-subpackage; bases named with a leading underscore; 15 import forms (a subclass named like the base it imports, from .. import module, '
                  'from ..module import name, aliases, star import next to an explicit one, sibling modules that re-derive the base, absolute dotted '
                  'imports) from files at depth 0..3; receivers: an instance, self inside a method; and completion on the module itself')
 def hierarchies_in_packages(run):
